@@ -118,7 +118,11 @@ F8 == << Doc("F8", "self-opt", SObj(Props2("v", SInt, "next", SRef("T")), {"v"})
          Doc2("F8", "alias-scalar", SRef("N"), "N", [type |-> "string", minLength |-> 1]),
          Doc2("F8", "ref-twice", SObj(Props2("p", SRef("N"), "q", SRef("N")), {"p"}), "N", EnumS(<<JS(<<"x">>), JS(<<"y">>)>>)),
          Doc2("F8", "mutual-tuple", SOneOf(<<SInt, SRef("U")>>), "U", STuple(<<SRef("T"), SRef("T")>>)),
-         Doc("F8", "self-map", SObj(Props1("kids", SMap(SRef("T"))), {})) >>
+         Doc("F8", "self-map", SObj(Props1("kids", SMap(SRef("T"))), {})),
+         (* a cycle entered from outside through a type with two children that both lie on it: which
+            edge is boxed depends on the order in which the children are visited *)
+         Doc3("F8", "cycle-entered-twice", SObj(Props2("b", SRef("B"), "c", SRef("C")), {"b", "c"}),
+              "B", SObj(Props2("c", SRef("C"), "n", SInt), {}), "C", SObj(Props2("b", SRef("B"), "m", SStr), {})) >>
 
 Tag(v) == EnumS(<<JS(v)>>)
 ExtVar(name, payload) == SObjClosed(Props1(name, payload), {name})
@@ -144,6 +148,10 @@ F9 == << (* externally tagged *)
          Doc("F9", "int-three-tags", SOneOf(<<
               SObj(Props3("kind", Tag(<<"a">>), "type", Tag(<<"x">>), "zeta", Tag(<<"p">>)), {"kind", "type", "zeta"}),
               SObj(Props3("kind", Tag(<<"b">>), "type", Tag(<<"y">>), "zeta", Tag(<<"q">>)), {"kind", "type", "zeta"}) >>)),
+         (* one-element tuple payloads and variant names that are not their own identifiers *)
+         Doc("F9", "ext-one-tuple-lower", SOneOf(<< EnumS(<<JS(<<"e","m","p","t","y">>)>>), ExtVar("point", STuple(<<SInt>>)),
+                                                     ExtVar("seg", STuple(<<SInt, SInt>>)) >>)),
+         Doc("F9", "adj-one-tuple-lower", SOneOf(<< AdjVar(<<"p","t">>, STuple(<<SInt>>)), AdjVar(<<"s","g">>, STuple(<<SInt, SStr>>)) >>)),
          (* tuple variants whose payload is not Copy / Eq / Hash *)
          Doc("F9", "ext-tuple-float", SOneOf(<< EnumS(<<JS(<<"N","o","n","e">>)>>), ExtVar("Pair", STuple(<<SNum, SStr>>)) >>)),
          Doc("F9", "ext-tuple-only", SOneOf(<< ExtVar("A", STuple(<<SStr, SInt>>)), ExtVar("B", STuple(<<SNum, SNum>>)) >>)),
@@ -157,6 +165,18 @@ F9 == << (* externally tagged *)
          Doc2("F9", "untagged-refs", SOneOf(<< SRef("N"), SStr >>), "N", SObj(Props1("q", SInt), {"q"})),
          Doc("F9", "titled-variants", SOneOf(<< Titled(SInt, "Count"), Titled(SStr, "Label") >>)),
          Doc("F9", "single", SOneOf(<< SObj(Props1("q", SInt), {"q"}) >>)) >>
+
+(* branches over exactly two members, a constant tag t and one other member c: c required in
+   both / only the first / neither branch, closed or open (the adjacent shape is the first row) *)
+TwoMemberVar(tagv, payload, creq, closed) ==
+    LET base == SObj(Props2("t", Tag(tagv), "c", payload), IF creq THEN {"t", "c"} ELSE {"t"})
+    IN IF closed THEN With(base, "additionalProperties", SFalse) ELSE base
+TwoMemberCombos == SetToSeq({"both", "first", "none"} \X BOOLEAN)
+F9b == [k \in DOMAIN TwoMemberCombos |->
+          LET r == TwoMemberCombos[k][1] cl == TwoMemberCombos[k][2] IN
+          Doc("F9", "two-member-" \o r \o (IF cl THEN "-closed" ELSE "-open"),
+              SOneOf(<< TwoMemberVar(<<"a">>, SInt, r \in {"both", "first"}, cl),
+                        TwoMemberVar(<<"b">>, SStr, r = "both", cl) >>))]
 
 F10 == << Doc("F10", "scalars", SAnyOf(<< SInt, SStr >>)),
           Doc("F10", "obj-disjoint", SAnyOf(<< SObjClosed(Props1("a", SInt), {"a"}), SObjClosed(Props1("b", SStr), {"b"}) >>)),
@@ -222,5 +242,5 @@ ArrProp(req, uniq, mn, mx) ==
 AFam == LET cs == SetToSeq(BOOLEAN \X BOOLEAN \X {-1, 0, 1} \X {-1, 2})
         IN [i \in DOMAIN cs |-> ArrProp(cs[i][1], cs[i][2], cs[i][3], cs[i][4])]
 
-QuickUniverse == F1 \o F2 \o F3 \o F4 \o F5 \o F6 \o F7 \o F8 \o F9 \o F10 \o Fix11 \o N \o AFam
+QuickUniverse == F1 \o F2 \o F3 \o F4 \o F5 \o F6 \o F7 \o F8 \o F9 \o F9b \o F10 \o Fix11 \o N \o AFam
 =============================================================================
